@@ -128,6 +128,28 @@ CLAIMED = {
         note="floats modelled as reals; exp/log/eig are contract-level symbols (2x2 closed form, 3x3 Vieta relations); N<=5; "
              "general tetrahedral configurations vary one particle (one coordinate in quick); 0*log 0 cases excluded.",
         ref="DESIGN.md C17"),
+    "C09": dict(
+        text="Bounded symbolic model checking of boo_3d, compositionally: (1) every sph_harm_l call the class makes is recorded and "
+             "the solver decides that its degree and (cos,sin) of both angles are those of the minimum-image bond; (2) with the "
+             "call answered by 2l+1 opaque complex symbols, q_lm, Q_lm, q_l, w_l (against the code's Wigner table, itself checked "
+             "entry-wise against the exact Racah value), w-hat_l, s_ij with padding and thresholded count, spatial_corr and time_corr "
+             "are decided as identities for l up to 12; equal weights == unweighted; 0<=q_l<=1 and |s_ij|<=1 with Cauchy-Schwarz "
+             "decided through Lagrange's identity; (3) the real table end to end for l<=2 and the tabulated fcc/bcc/sc (hcp, "
+             "icosahedron thorough) values with symbolic lattice constant and origin.",
+        note="floats modelled as reals; the values Y_lm themselves are C08's subject; N=3 (4 thorough), <=2-3 bonds per particle; "
+             "bonds parallel to z, zero weights sums and c<0 excluded; Unsold's identity is a stated lemma for the opaque vectors.",
+        ref="DESIGN.md C09"),
+    "C18": dict(
+        text="Bounded symbolic model checking of frame conditions: (a) the harnesses of C02-C06, C09-C17 re-run in frame mode, where "
+             "every snapshot array and array argument is compared element-wise (solver) before/after on every path, a write monitor "
+             "in the numpy facade logs every write reaching an input's memory, and each path's model is replayed on the real code "
+             "with a byte comparison; (b) call sequences A;B;A on shared snapshots and analysis objects (g(r)/S(q)/conditional, "
+             "boo_2d, boo_3d, Dynamics/LogDynamics, coarse graining, vector measures, neighbour writers, gyration tensor, "
+             "VolumeMatrix): identical results, unchanged object state, recorded file object == returned object.",
+        note="term identity over the reals is what the solver decides; bit-level identity is decided only on the concrete replays "
+             "(path models and, for writes that cancel over the reals, a few seeded float64 inputs - labelled sampling in the "
+             "evidence); freud is stubbed in the symbolic run; CSV text precision outside the claim.",
+        ref="DESIGN.md C18"),
 }
 
 NOT_APPLICABLE = {
